@@ -1469,10 +1469,13 @@ class C16(Property):
                     obs['str'] = pe.to_string()
                 except Exception as e:
                     obs['str_exc'] = exc_name(e)
-                obs['source_file'] = pe.source_file
                 return obs
         except CaseTimeout:
             return {'exc': 'CaseTimeout'}
+        except ValueError as e:
+            # the documented error for unrecognised text; a subclass of ValueError is as good (UnicodeDecodeError
+            # for undecodable bytes is one, but no case hands over undecodable bytes)
+            return {'exc': 'ValueError'}
         except Exception as e:
             return {'exc': exc_name(e)}
 
@@ -1531,8 +1534,8 @@ class C16(Property):
             # to_string() of frames read from the SyntaxError form (no function name) is outside the statement
             # (today: KeyError): whatever it does is accepted, on both sides
             s = '~' if any(f[2] is None for f in obs['frames']) else hx(obs['str']) if 'str' in obs else 'X' + obs['str_exc']
-            out = 'ok n=%d %s | %s %s | %s | %s' % (len(obs['frames']), fr, hx(obs['type']), hx(obs['msg']), s,
-                                                    h(obs['source_file']))
+            # ParsedException.source_file is not something the statement speaks about: not compared
+            out = 'ok n=%d %s | %s %s | %s' % (len(obs['frames']), fr, hx(obs['type']), hx(obs['msg']), s)
         if k == 't':
             # wfc: the model's text-level predicate WFtext accepts every text generated from well-formed data
             out += ' | wf=%d gen=1 wfc=1' % (1 if self.wf_case(case) else 0)
